@@ -19,21 +19,21 @@ ID = "C19"
 LEVEL = "fault_enumeration"
 COUNTS = {"quick": 600, "thorough": 40000}
 RULE = ("each run = one fresh import of the library under one of the 4 presence combinations of the sgio/iscsi bindings (absence is the "
-        "injected fault), then: import of every module under pyscsi, construct+encode+decode of every command class, facade calls over "
-        "a plain recording device, and 4-12 init_device / SCSIDevice / ISCSIDevice calls with device strings from the listed families "
-        "plus random strings, read-only/read-write, explicit/default/empty initiator names. Enumerated: 4 combinations x every listed "
+        "injected fault; a missing binding is either not installed = ModuleNotFoundError, or installed but failing to load = ImportError), then: import of every module under pyscsi, construct+encode+decode of every command class, facade calls over "
+        "plain recording device objects (block, tape, MMC, changer types; command set per type), and 4-12 init_device / SCSIDevice / ISCSIDevice calls with device strings from the listed families "
+        "plus random strings, read-only/read-write, explicit/default/empty initiator names. Enumerated: 4 combinations x {absent, unloadable} x every listed "
         "string x rw x {init_device, constructors} (complete in both tiers). Non-trivial = at least one refusal and (when a binding is "
         "present) one accepted device in the same run; distinct = event digest")
-ENUMERATED_NOTE = "4 binding-presence combinations x 17 device strings x read-only/read-write x {init_device, SCSIDevice, ISCSIDevice} x {default, explicit} initiator name"
+ENUMERATED_NOTE = "4 binding-presence combinations x {not installed, fails to load} x 17 device strings x read-only/read-write x {init_device, SCSIDevice, ISCSIDevice} x {default, explicit} initiator name"
 COMPONENTS = {"real": ["every module under pyscsi (fresh import per run)", "init_device", "SCSIDevice/ISCSIDevice constructors", "all command classes", "SCSI facade"],
               "stubs": ["sgio / iscsi modules (present or absent)", "virtual /dev", "socket.gethostname", "plain recording device"],
               "simulated_peers": ["t10.targets.BlockLU behind the accepted devices"]}
 ASSUMPTIONS = [
-    "absence of a binding is simulated by sys.modules[name] = None, which makes `import name` raise ImportError (ModuleNotFoundError is a subclass and is what a really missing module raises; both are covered by `except ImportError`)",
+    "absence of a binding is simulated by sys.modules[name] = None, which makes `import name` raise ModuleNotFoundError as for a module that is not installed; a binding that is installed but cannot be loaded is simulated by a meta-path finder raising plain ImportError (what a stale or ABI-mismatched extension module raises). Both count as 'missing'",
     "for a string with the right prefix and the binding present the library may fail with an OS/URL error from the binding (e.g. '/dev/' is a directory, 'iscsi://' has no target); then at most the one open/URL event on exactly that string is allowed",
     "an explicitly empty initiator name is not judged (the library substitutes the URL)",
 ]
-REQUIRED_PROBES = ["open_refused_by_os", "refused_missing_binding", "refused_other_string", "accepted_sgio", "accepted_iscsi", "default_initiator", "all_modules_imported"]
+REQUIRED_PROBES = ["open_refused_by_os", "refused_missing_binding", "refused_other_string", "accepted_sgio", "accepted_iscsi", "default_initiator", "all_modules_imported", "facade_plain_family"]
 
 REPO = "/repo"
 STRINGS = ["/dev/sg0", "/dev/sg1", "/dev/", "/dev", "/devx", "/dev/nonexistent", "dev/sg0", " /dev/sg0",
@@ -73,13 +73,15 @@ def gen_devop(rng):
 
 
 def generate(rng, idx, tier):
-    return {"property": ID, "config": {"sgio": rng.random() < 0.5, "iscsi": rng.random() < 0.5, "hostname": rng.choice(["simhost", "node-7", "a.b.c"])},
+    return {"property": ID, "config": {"sgio": rng.random() < 0.5, "iscsi": rng.random() < 0.5, "hostname": rng.choice(["simhost", "node-7", "a.b.c"]),
+                                       # how a missing binding is missing: not installed, or installed but failing to load
+                                       "missing_as": rng.choice(["absent", "absent", "unloadable"])},
             "ops": [{"op": "import_all"}, {"op": "commands", "seed": rng.randrange(1 << 30)}, {"op": "facade", "seed": rng.randrange(1 << 30)}]
             + [gen_devop(rng) for _ in range(rng.randrange(4, 13))]}
 
 
 def enumerated_count(tier):
-    return 4 * 2 * 3 * 2
+    return 4 * 2 * 3 * 2 * 2
 
 
 def enumerated(k, tier):
@@ -95,7 +97,8 @@ def enumerated(k, tier):
         if explicit:
             op["initiator"] = "iqn.2026-10.verif:explicit"
         ops.append(op)
-    return {"property": ID, "config": {"sgio": bool(combo & 1), "iscsi": bool(combo & 2), "hostname": "simhost"}, "ops": ops}
+    return {"property": ID, "config": {"sgio": bool(combo & 1), "iscsi": bool(combo & 2), "hostname": "simhost",
+                                       "missing_as": "unloadable" if (k // 48) % 2 else "absent"}, "ops": ops}
 
 
 PINNED_OPS = 0
@@ -108,7 +111,8 @@ def execute(prog):
     cfg = prog["config"]
     if "pyscsi" in sys.modules:
         raise RuntimeError("harness: pyscsi already imported in the C19 template")
-    install(sgio=cfg["sgio"], iscsi=cfg["iscsi"], hostname=cfg["hostname"])
+    miss = "unloadable" if cfg.get("missing_as") == "unloadable" else False
+    install(sgio=cfg["sgio"] or miss, iscsi=cfg["iscsi"] or miss, hostname=cfg["hostname"])
     sys.dont_write_bytecode = True
     if sys.path[0] != REPO:
         sys.path.insert(0, REPO)
@@ -189,6 +193,22 @@ def execute(prog):
                     getattr(scsi, m)(*F.real_args(call["args"]), **F.real_args(call["kw"]))
             except BaseException as e:  # noqa
                 viol("C19.facade", where_cfg, type(e).__name__, "the facade works over a plain device object", repr(e)[:120])
+            # ... and over plain device objects of the other families: the command set follows the device's type
+            from props import c16
+            dtype = [0x01, 0x05, 0x08, 0x07, 0x04, 0x05, 0x08][op["seed"] % 7]
+            pdev = PlainDevice(E.spc, T.make_lu(dtype, 0, 10), None)
+            V16 = []
+            try:
+                scsi = SCSI(pdev, blocksize=512)
+                c16.judge_set(pdev, dtype, "plain", V16)
+                for k in range(4):
+                    m, args, kw = c16.followups(dtype, op["seed"] + k)
+                    getattr(scsi, m)(*args, **kw)
+                WORLD.probe("facade_plain_family")
+            except BaseException as e:  # noqa
+                viol("C19.facade", where_cfg, "type=%02x/%s" % (dtype, type(e).__name__), "the facade works over a plain device object of type %#04x" % dtype, repr(e)[:120])
+            for v in V16:
+                viol("C19.facade", where_cfg, "type=%02x/%s" % (dtype, v["oracle"]), v["expected"], v["actual"])
             summary.append("facade")
         elif name == "device":
             s, via = op["s"], op["via"]
@@ -208,11 +228,13 @@ def execute(prog):
                     kw["initiator_name"] = op["initiator"]
                 fn = lambda: init_device(s, **kw)
             elif via == "SCSIDevice":
-                from pyscsi.pyscsi.scsi_device import SCSIDevice
-                fn = lambda: SCSIDevice(s, op.get("rw", False))
+                def fn():
+                    from pyscsi.pyscsi.scsi_device import SCSIDevice      # a module that does not import is judged like a failing call
+                    return SCSIDevice(s, op.get("rw", False))
             else:
-                from pyscsi.pyiscsi.iscsi_device import ISCSIDevice
-                fn = (lambda: ISCSIDevice(s, op["initiator"])) if "initiator" in op else (lambda: ISCSIDevice(s))
+                def fn():
+                    from pyscsi.pyiscsi.iscsi_device import ISCSIDevice
+                    return ISCSIDevice(s, op["initiator"]) if "initiator" in op else ISCSIDevice(s)
             try:
                 dev = fn()
                 kind, val = "ok", dev
@@ -283,10 +305,10 @@ def execute(prog):
                     ini = ctxs[0].get("initiator") if ctxs else None
                     if op.get("initiator") == "" and via == "init_device":
                         # an explicitly empty name must mean the same through init_device as through the constructor
-                        from pyscsi.pyiscsi.iscsi_device import ISCSIDevice as _I
                         n0 = len(WORLD.iscsi_contexts)
                         k9, v9 = "ok", None
                         try:
+                            from pyscsi.pyiscsi.iscsi_device import ISCSIDevice as _I
                             _I(s, "")
                         except BaseException as e9:  # noqa
                             k9 = "exc"
@@ -319,6 +341,8 @@ def execute(prog):
         stats["fired.binding_absent_sgio"] = 1
     if not cfg["iscsi"]:
         stats["fired.binding_absent_iscsi"] = 1
+    if WORLD.fired.get("binding_unloadable"):
+        stats["fired.binding_unloadable"] = WORLD.fired["binding_unloadable"]
     P = WORLD.probes
     nt = (P.get("refused_missing_binding", 0) + P.get("refused_other_string", 0)) > 0 and \
          ((not cfg["sgio"] and not cfg["iscsi"]) or P.get("accepted_sgio", 0) + P.get("accepted_iscsi", 0) > 0)
